@@ -193,6 +193,24 @@ class beta_norm_macro(Macro):
         assert args is None, "beta_norm_macro"
         return pts[0].on_prop(beta_norm_conv())
 
+def exists_elim_pt(ex_pt, pt):
+    """Given ex_pt showing ?x1 ... xn. P x1 ... xn and pt showing
+    !x1 ... xn. P x1 ... xn --> C, return proof term showing C.
+
+    """
+    assert ex_pt.prop.is_exists() and pt.prop.is_forall() and pt.prop.arg.is_abs(), "exists_elim_pt"
+    var_names = [v.name for v in term.get_vars([ex_pt.prop, pt.prop] + list(ex_pt.hyps) + list(pt.hyps))]
+    v = Var(name.get_variant_name(pt.prop.arg.var_name, var_names), pt.prop.arg.var_T)
+    body = pt.prop.arg.subst_bound(v)
+    Pv = ex_pt.prop.arg(v).beta_conv() if ex_pt.prop.arg.is_abs() else ex_pt.prop.arg(v)
+    if body.is_implies() and body.arg1 == Pv:
+        return apply_theorem('exE', ex_pt, pt)
+
+    # More than one variable: eliminate the inner quantifiers first.
+    assert Pv.is_exists(), "exists_elim_pt"
+    inner = exists_elim_pt(ProofTerm.assume(Pv), pt.forall_elim(v))
+    return apply_theorem('exE', ex_pt, inner.implies_intr(Pv).forall_intr(v))
+
 class intros_macro(Macro):
     """Introduce assumptions and variables."""
     def __init__(self):
@@ -213,7 +231,7 @@ class intros_macro(Macro):
                 pt = pt.forall_intr(intro.prop.arg)
             elif len(args) > 0 and intro.th.prop == args[0]:  # exists case
                 assert intro.prop.is_exists(), "intros_macro"
-                pt = apply_theorem('exE', intro, pt)
+                pt = exists_elim_pt(intro, pt)
                 args = args[1:]
             else:  # assume case
                 assert len(intro.th.hyps) == 1 and intro.th.hyps[0] == intro.th.prop, \
